@@ -160,8 +160,14 @@ func recoverCheck(w *harness.World, img *vstor.Stor, what string, loose map[stri
 	}
 	if !w2.Failed() {
 		// an ordinary DB afterwards: write, compact, reopen with plain Open
-		for _, op := range []string{"put:b", "cr", "re", "del:b", "q", "re"} {
+		// (Recover puts every table into level 0, where file-number order need not be recency
+		// order: let the automatic level-0 compactions run first and read everything back after
+		// each step, before the full manual compaction levels the differences)
+		for _, op := range []string{"q", "put:b", "q", "cr", "re", "del:b", "q", "re"} {
 			w2.Apply(op)
+			if !w2.Failed() {
+				w2.CheckDB()
+			}
 			if w2.Failed() {
 				break
 			}
